@@ -1,0 +1,32 @@
+//go:build verif
+
+package lambda
+
+import (
+	"github.com/sirupsen/logrus"
+
+	"github.com/atlassian/gostatsd/internal/awslambda/extension"
+	"github.com/atlassian/gostatsd/internal/flush"
+)
+
+// VerifServer mirrors the internal extension.Server interface (Run(ctx) error).
+type VerifServer = extension.Server
+
+// VerifNewExtensionWithServer wraps an arbitrary server (instead of a *statsd.Server) in the Lambda extension
+// manager, so that the verification harness can script what the wrapped server's Run returns and when.
+// With manual flush enabled the returned coordinator is the one the telemetry hook and the heartbeat use;
+// the caller registers its flushable on it.
+func VerifNewExtensionWithServer(logger logrus.FieldLogger, server extension.Server, opts Options) (Extension, flush.Coordinator, error) {
+	if err := opts.Validate(); err != nil {
+		return nil, nil, err
+	}
+	var (
+		extOpts []extension.ManagerOpt
+		fc      flush.Coordinator
+	)
+	if opts.EnableManualFlush {
+		fc = flush.NewFlushCoordinator()
+		extOpts = append(extOpts, extension.WithManualFlushEnabled(fc, opts.TelemetryAddr))
+	}
+	return extension.NewManager(opts.RuntimeAPI, opts.ExecutableName, logger, server, extOpts...), fc, nil
+}
